@@ -5,6 +5,7 @@ admission slice. The `…_always` style theorems hold in every reachable state o
 `Reachable cfg s` = `s` is the result of some error-free list of ops (`connect`, `push`, `event`,
 `consume`, `drain`, each under an arbitrary oracle) from `init cfg` (Proofs/Lemmas/Router/Reach.lean).
 -/
+import Proofs.Props.C19net
 import Proofs.Lemmas.Router.Rp1_Ghost
 namespace C19
 open Router
@@ -86,5 +87,20 @@ theorem takeover_removes_old_first {cfg : Config} {s s' : RState} {o : List Choi
 /-- non-vacuity: the initial state is reachable and a first CONNECT with a valid id is registered
     when `max_connections > 0` -/
 example (cfg : Config) : Reachable cfg (init cfg) := reachable_init cfg
+
+end C19
+
+namespace C19
+
+theorem admit_only_if : type_of% @C19net.admit_only_if := @C19net.admit_only_if
+theorem admit_meets_spec : type_of% @C19net.admit_meets_spec := @C19net.admit_meets_spec
+theorem reject_never_reaches_router : type_of% @C19net.reject_never_reaches_router := @C19net.reject_never_reaches_router
+theorem reject_connack : type_of% @C19net.reject_connack := @C19net.reject_connack
+theorem reject_connack_bytes : type_of% @C19net.reject_connack_bytes := @C19net.reject_connack_bytes
+theorem session_only_if_valid_client_id : type_of% @C19net.session_only_if_valid_client_id := @C19net.session_only_if_valid_client_id
+theorem no_auth_decision : type_of% @C19net.no_auth_decision := @C19net.no_auth_decision
+theorem static_auth_decision : type_of% @C19net.static_auth_decision := @C19net.static_auth_decision
+theorem external_auth_decision : type_of% @C19net.external_auth_decision := @C19net.external_auth_decision
+theorem auth_meets_spec : type_of% @C19net.auth_meets_spec := @C19net.auth_meets_spec
 
 end C19
